@@ -32,6 +32,8 @@ def sysStep (st : SysSt) (tok : String) : Option SysSt :=
     let ok := s'.applied.length != st.sys.applied.length
     some { sys := s', tick := st.tick + 1, out := (if ok then "S=ok" else "S=bad") :: st.out }
   | ["R"] => some { st with sys := st.sys.restart, out := "R" :: st.out }
+  -- FLUSH moves events between storage tiers of their shard; the shard's event list is unchanged
+  | ["F"] => some { st with out := "F" :: st.out }
   | ["Q", c] => do
     let ctx ← unhex c
     let rows := st.sys.read (some ctx)
